@@ -23,7 +23,8 @@ class Ob:
         self.function = func.qual.split("::", 1)[1] if hasattr(func, "qual") else "<module>"
         self.line = getattr(node, "lineno", 0) if node is not None else 0
         self.construct = construct if construct is not None else (first_line(node) if node is not None else "")
-        self.ok = bool(ok)
+        self.undecided = ok is None
+        self.ok = bool(ok) if ok is not None else False
         self.msg = msg
         self.slots = slots or {}
         self.witness = witness
@@ -38,7 +39,7 @@ class Ob:
             "site": f"{self.file}:{self.line}",
             "function": self.function,
             "construct": self.construct,
-            "verdict": "ok" if self.ok else "VIOLATED",
+            "verdict": "ok" if self.ok else ("UNDECIDED" if self.undecided else "VIOLATED"),
         }
         if self.slots:
             d["slots"] = self.slots
@@ -71,6 +72,10 @@ class RuleResult:
         ob = Ob(self.rule, *a, **k)
         self.obs.append(ob)
         return ob
+
+    def undecided(self, func, node, why, **k):
+        """the rule located (or failed to locate) its anchor but cannot tell whether the clause holds: not a violation"""
+        return self.add(func, node, None, why, **k)
 
     def note(self, s):
         self.info.append(s)
@@ -114,6 +119,7 @@ def write_evidence(prop, tier, seed, explanation, results, stats, t0, violations
         "explanation": explanation,
         "obligations": len(all_obs),
         "discharged": sum(1 for o in all_obs if o.ok),
+        "undecided": sum(1 for o in all_obs if o.undecided),
         "evaluations": max(1, len(all_obs)),
         "distinct_nontrivial": len(distinct),
         "rule": "; ".join(f"{r.rule}: {r.text}" for r in results)
@@ -126,7 +132,8 @@ def write_evidence(prop, tier, seed, explanation, results, stats, t0, violations
                 "clause": r.clause,
                 "instances": len(r.obs),
                 "min_instances_required": r.min_instances,
-                "violated": sum(1 for o in r.obs if not o.ok),
+                "violated": sum(1 for o in r.obs if not o.ok and not o.undecided),
+                "undecided": sum(1 for o in r.obs if o.undecided),
                 "functions_analysed": r.analysed,
                 "info": r.info,
             }
